@@ -151,7 +151,7 @@ func (b *Batch) Violation(msg string, detail any) {
 	}
 	v := Violation{Property: b.ID, Batch: b.Index, Msg: msg, Detail: detail}
 	if !b.Replay {
-		dir := filepath.Join(VerifDir(), "replays")
+		dir := ReplayDir()
 		os.MkdirAll(dir, 0o755)
 		p := filepath.Join(dir, fmt.Sprintf("%s-%s-%d-%d-%d.json", b.ID, b.Tier, b.Seed, b.Index, len(b.res.Violations)))
 		rep := map[string]any{"property": b.ID, "tier": b.Tier, "seed": b.Seed, "batch": b.Index, "msg": msg, "detail": detail}
@@ -232,6 +232,22 @@ func VerifDir() string {
 		return d
 	}
 	return "/verif"
+}
+
+// EvidenceDir is where evidence files go (VERIF_EVIDENCE_DIR redirects self-test runs).
+func EvidenceDir() string {
+	if d := os.Getenv("VERIF_EVIDENCE_DIR"); d != "" {
+		return d
+	}
+	return filepath.Join(VerifDir(), "evidence")
+}
+
+// ReplayDir is where replay files go.
+func ReplayDir() string {
+	if d := os.Getenv("VERIF_REPLAY_DIR"); d != "" {
+		return d
+	}
+	return filepath.Join(VerifDir(), "replays")
 }
 
 // Pick returns a random element.
